@@ -10,7 +10,7 @@ import RV.Driver.Util
   operation order.  Also runs the LEAPFROG model of RV/Model/Reversal.lean.
 
   line protocol (doubles as 16 hex digits, ints as 16 hex digits two's complement):
-    FORCE = <G> <softening> <N_active|-1> <testparticle_type> <k of the additional force a += -k x>
+    FORCE = <G> <softening> <N_active|-1> <testparticle_type> <k of the additional force a += -k x> <kv of the drag a += -kv v>
     janus <order> <scale_pos> <scale_vel> FORCE <every> <nseg> (<dt> <n>)*nseg <N> (m x y z vx vy vz)*N
     leapfrog FORCE <every> <nseg> (<dt> <n>)*nseg <N> (m x y z vx vy vz)*N
     sei <OMEGA> <OMEGAZ> FORCE <every> <nseg> (<dt> <n>)*nseg <N> (m x y z vx vy vz)*N
@@ -33,7 +33,7 @@ instance : JFloat Float where
   ofInt i := (Int64.ofBitVec i).toFloat
   truncToInt a := if a.abs < 9223372036854775808.0 then some a.toInt64.toBitVec else none
 
-/-- the force configuration of a line: `<G> <softening> <N_active (-1 = all)> <testparticle_type> <k>`;
+/-- the force configuration of a line: `<G> <softening> <N_active (-1 = all)> <testparticle_type> <k> <kv>`;
     `k ≠ 0` adds the velocity-independent additional force `a += (-k)*x` (installed on the real code
     as an `additional_forces` callback) -/
 structure Force where
@@ -42,13 +42,15 @@ structure Force where
   nActive : Option Nat
   tpType : Bool
   k : Float
+  /-- velocity-dependent additional force `a += (-kv)*v` (drag): outside the reversal theorem -/
+  kv : Float
 
 def parseForce : List String → Option (Force × List String)
-  | g :: soft :: na :: tp :: k :: r =>
+  | g :: soft :: na :: tp :: k :: kv :: r =>
     let soft := fl soft
     let na? : Option (Option Nat) := if na == "-1" then some none else na.toNat?.map some
     match na?, tp.toNat? with
-    | some na, some tp => some (⟨fl g, soft*soft, na, tp != 0, fl k⟩, r)
+    | some na, some tp => some (⟨fl g, soft*soft, na, tp != 0, fl k, fl kv⟩, r)
     | _, _ => none
   | _ => none
 
@@ -106,6 +108,11 @@ def gravityBasic (f : Force) (ms : Array Float) (pos : List (V3 Float)) : List (
       az := az.set! i (az[i]! + (-f.k)*pi.z)
   return (List.range n).map (fun i => ⟨ax[i]!, ay[i]!, az[i]!⟩)
 
+/-- gravity + position-dependent additional force + drag, from the particle doubles `to_double` wrote -/
+def accVOf (f : Force) (ms : Array Float) (d : List (PDbl Float)) : List (V3 Float) :=
+  let a := gravityBasic f ms (d.map (fun q => ⟨q.x, q.y, q.z⟩))
+  List.zipWith (fun (a : V3 Float) (q : PDbl Float) => ⟨a.x + (-f.kv)*q.vx, a.y + (-f.kv)*q.vy, a.z + (-f.kv)*q.vz⟩) a d
+
 def hxI (i : I64) : String := toHex16 (UInt64.ofNat i.toNat)
 
 def recJ (sp sv : Float) (s : List PInt) : String :=
@@ -135,25 +142,27 @@ def parseParts : List String → List (Float × PDbl Float)
   | _ => []
 
 /-- run `n` steps, emitting a record every `every` steps (counted within the segment) and at the end -/
-def runSeg (cfg : Cfg Float) (sch : Scheme Float) (dt : Float) (every : Nat) :
+def runSeg (cfg : Cfg Float) (accV : Option (List (PDbl Float) → List (V3 Float))) (sch : Scheme Float) (dt : Float) (every : Nat) :
     Nat → Nat → List PInt → List String → (Option (List PInt)) × List String
   | 0, _, st, out => (some st, out)
   | n+1, k, st, out =>
     -- the full step as seen from outside: flag clear, N_allocated = N, particles = doubles of the grid
-    match stepFull cfg sch dt (toDouble cfg.scalePos cfg.scaleVel st) ⟨st, st.length, false⟩ with
+    let next : Option (List PInt) := match accV with
+      | none => (stepFull cfg sch dt (toDouble cfg.scalePos cfg.scaleVel st) ⟨st, st.length, false⟩).map (·.1.pInt)
+      | some av => stepV cfg av sch dt st
+    match next with
     | none => (none, "err" :: out)
-    | some (js', _) =>
-      let st' := js'.pInt
+    | some st' =>
       let k' := k + 1
       let emit := n == 0 || (every != 0 && k' % every == 0)
-      runSeg cfg sch dt every n k' st' (if emit then recJ cfg.scalePos cfg.scaleVel st' :: out else out)
+      runSeg cfg accV sch dt every n k' st' (if emit then recJ cfg.scalePos cfg.scaleVel st' :: out else out)
 
-def runSegs (cfg : Cfg Float) (sch : Scheme Float) (every : Nat) :
+def runSegs (cfg : Cfg Float) (accV : Option (List (PDbl Float) → List (V3 Float))) (sch : Scheme Float) (every : Nat) :
     List (Float × Nat) → List PInt → List String → List String
   | [], _, out => out
   | (dt, n) :: r, st, out =>
-    match runSeg cfg sch dt every n 0 st out with
-    | (some st', out') => runSegs cfg sch every r st' out'
+    match runSeg cfg accV sch dt every n 0 st out with
+    | (some st', out') => runSegs cfg accV sch every r st' out'
     | (none, out') => out'
 
 def janusLine (toks : List String) : String :=
@@ -172,7 +181,8 @@ def janusLine (toks : List String) : String :=
           match part1Sync cfg.scalePos cfg.scaleVel (parts.map Prod.snd) ⟨[], 0, false⟩ with
           | none => "err"
           | some js0 =>
-            let out := runSegs cfg sch every segs js0.pInt [recJ cfg.scalePos cfg.scaleVel js0.pInt]
+            let accV := if force.kv == 0.0 then none else some (accVOf force ms)
+            let out := runSegs cfg accV sch every segs js0.pInt [recJ cfg.scalePos cfg.scaleVel js0.pInt]
             " | ".intercalate out.reverse
         | none, _ => "bad-order"
         | _, _ => "bad-op"
